@@ -8,6 +8,7 @@ package main
 
 import (
 	"fmt"
+	"math/rand"
 	"os"
 	"path/filepath"
 	"sort"
@@ -129,6 +130,25 @@ func runC02(c *Ctx) {
 		n = 2500
 	}
 	progs := rtPrograms(c, n, GenOpts{Preflight: true})
+	// the parametrised families of C01 (nested disabled pipelines with a flag producer per level, flags per
+	// fork inside mapped pipelines, literal flag collections): without the ECHO hook their flag stages return
+	// arbitrary booleans, which is all the ordering monitor needs
+	famRng := rand.New(rand.NewSource(c.Seed ^ 0x0c02))
+	nfam := 0
+	for _, fc := range c01Families(famRng, c.Thorough) {
+		cl := c01FamilyClass(fc.name)
+		if cl != "disabled-nest" && cl != "fork-flag" && cl != "lit-flag" {
+			continue
+		}
+		if !c.Thorough && nfam >= 40 {
+			break
+		}
+		if p, err := compileProgram(fc.name, fc.src, nil); err == nil {
+			progs = append(progs, p)
+			nfam++
+		}
+	}
+	r.Histogram["family_programs"] = nfam
 	cases := runCases(c, progs, 2, TASpec{})
 	replayed := 0
 	for _, cs := range cases {
